@@ -1,15 +1,14 @@
 SPECIFICATION Spec
 CONSTANTS
-  Streams = {1, 2}
+  Streams = {1}
   Enforce = {"C19", "C20", "C32"}
-  MCoff = 1
+  MCoff = 2
   MCwin = 1
   MCcw = 2
   MCpk = 3
-  MCbk = 1
+  MCbk = 3
   MCdup = 1
-  MCack = FALSE
+  MCack = TRUE
 INVARIANTS CreditRespected ReadPrefix FinalSizeConsistent
 PROPERTIES NoStreamAfterReset AdvertisedMonotone
 CHECK_DEADLOCK FALSE
-VIEW ViewNoAck
